@@ -264,7 +264,7 @@ def check_acc(V, spec, row, present, amounts, T):
             cnt = sum(1 for pid, k in present if pid == p['pid'])
             a = p.get('amount', 1)
             got = row.get('pair', {}).get('p%d' % p['pid'])
-            V.check('accumulator', got == {'x': a * cnt, 'y': 10 * a * cnt},
+            V.check('accumulator', got == {'x': a * cnt, 'y': 10 * a * cnt, 'g': {'u': a * cnt, 'v': 10 * a * cnt}},
                     lambda: ('pair store of process %d at t=%r is %r, %d updates of x+=%r, y+=%r applied' % (p['pid'], T, got, cnt, a, 10 * a)))
         if not p.get('shared_acc'):
             exp = sum(amounts[pid] for pid, k in present if pid == p['pid'])
